@@ -153,21 +153,224 @@ def run_case(ctx, rng):
         ctx.sample({"case": case, "oid": o.get("oid") if k1 == "ok" else None})
 
 
+def _snapshot(path):
+    """{relative path: bytes} of a directory, {"": bytes} of a single file, {} when the path is gone"""
+    if os.path.isdir(path):
+        return walk_files(path)
+    if os.path.isfile(path):
+        with open(path, "rb") as fh:
+            return {"": fh.read()}
+    return {}
+
+
+def _short(d):
+    return {k: (v.hex() if len(v) < 24 else "len:%d md5:%s" % (len(v), md5hex(v)[:8])) for k, v in d.items()}
+
+
+def run_interleaved(ctx, rng):
+    """Several paths staged for ONE store before any of them is transferred (what `dvc add a b c` / a repro of several
+    outputs does: stage everything, then move the data).  The staged paths share file contents.  Between the stagings and
+    the transfers some of the staged paths - scratch directories that may never be stored - are edited in place, lose
+    files or disappear; optionally they are staged again in their new shape.  Every staged object whose source path was
+    not touched since it was staged must still round trip exactly: what one staging refers to is that staging's business
+    and is not to be redirected by a later staging for the same store."""
+    from dvc_data.hashfile import load
+    from dvc_data.hashfile.build import build
+    from dvc_data.hashfile.checkout import checkout
+    from dvc_data.hashfile.meta import Meta
+    from dvc_data.hashfile.state import State
+    from dvc_data.hashfile.transfer import transfer
+    from dvc_data.hashfile.tree import Tree
+    from dvc_data.index import DataIndex, DataIndexEntry
+    from dvc_data.index.checkout import apply, compare
+    from dvc_data.index.index import ObjectStorage
+
+    import shutil
+
+    from .util import bump_mtime, write_file
+
+    fs = stores.fs_local()
+    root = ctx.mkdtemp()
+    local = rng.random() < 0.5
+    link = rng.choice(["copy", "hardlink", "symlink"])
+    use_state = rng.random() < 0.5
+    st = State(root_dir=root, tmp_dir=os.path.join(root, "tmp")) if use_state else None
+    cfg = {"state": st} if st else {}
+    odb = stores.make_odb(os.path.join(root, "odb"), local=local, type=[link], **cfg)
+
+    # ---- the staged paths: directories (and now and then a single file) with contents drawn from a common pool
+    shared = [bytes(rng.choice(b"sharedSHARED-\n") for _ in range(rng.randrange(1, 40))) for _ in range(rng.randrange(1, 4))]
+    ntargets = rng.choice([2, 2, 3, 4])
+    targets = []
+    for i in range(ntargets):
+        p = os.path.join(root, "ws%d" % i)
+        if rng.random() < 0.15:
+            data = {(): rng.choice(shared)}
+            write_file(p, data[()])
+        else:
+            data = gen.rand_tree(rng, max_files=rng.choice([1, 3, 5]), max_depth=rng.choice([0, 1, 3]))
+            ks = sorted(data)
+            for k in rng.sample(ks, rng.randrange(1, min(3, len(ks)) + 1)):
+                if rng.random() < 0.85:
+                    data[k] = rng.choice(shared)
+            gen.materialize(p, data, rng)
+        targets.append({"path": p, "isdir": () not in data, "want": {"/".join(k): v for k, v in data.items()}, "touched": False, "how": []})
+
+    def stage(t):
+        staging, meta, obj = build(odb, t["path"], fs, "md5")
+        t.setdefault("first", dict(t["want"]))
+        t["staged"] = {"staging": staging, "obj": obj, "nfiles": meta.nfiles, "size": meta.size, "want": dict(t["want"]),
+                       "built": sorted(("/".join(k), h.value) for k, _, h in obj) if t["isdir"] else [("", obj.hash_info.value)]}
+
+    def disturb(t):
+        """edit the staged path behind the library's back; t['want'] follows the workspace"""
+        t["touched"] = True
+        if rng.random() < 0.15:
+            t["how"].append("removed")
+            if t["isdir"]:
+                shutil.rmtree(t["path"])
+            else:
+                os.remove(t["path"])
+            t["want"] = {}
+            return
+        for rel in sorted(t["want"]):
+            r = rng.random()
+            fp = os.path.join(t["path"], *rel.split("/")) if rel else t["path"]
+            old = t["want"][rel]
+            if r < 0.55:
+                new = bytes((b + 1) % 256 for b in old) if (old and rng.random() < 0.7) else old + b"+edited"
+                with open(fp, "r+b") as fh:  # in place: same inode
+                    fh.truncate(0)
+                    fh.write(new)
+                bump_mtime(fp)
+                t["want"][rel] = new
+                t["how"].append("edit:" + ("same-size" if len(new) == len(old) else "grown"))
+            elif r < 0.7 and rel:
+                os.remove(fp)
+                del t["want"][rel]
+                t["how"].append("unlink")
+        if rng.random() < 0.3 and t["isdir"]:
+            extra = rng.choice(shared)
+            write_file(os.path.join(t["path"], "added-later"), extra)
+            t["want"]["added-later"] = extra
+            t["how"].append("new-file")
+
+    def body():
+        order = list(range(ntargets))
+        rng.shuffle(order)
+        for i in order:
+            stage(targets[i])
+        # at least one staged path stays as it was, at least one is disturbed
+        k = rng.randrange(1, ntargets)
+        victims = rng.sample(range(ntargets), k)
+        for i in victims:
+            disturb(targets[i])
+        restaged = []
+        if rng.random() < 0.4:
+            for i in victims:
+                if targets[i]["want"]:
+                    stage(targets[i])
+                    targets[i]["touched"] = False
+                    restaged.append(i)
+        # ---- now move the data: every staging whose source is as it was staged, in any order
+        todo = [i for i in range(ntargets) if not targets[i]["touched"]]
+        rng.shuffle(todo)
+        res = {}
+        for i in todo:
+            t = targets[i]
+            s = t["staged"]
+
+            def one():
+                r = transfer(s["staging"], odb, {s["obj"].hash_info}, shallow=False)
+                obj = load(odb, s["obj"].hash_info)
+                loaded = sorted(("/".join(k), h.value) for k, _, h in Tree.load(odb, s["obj"].hash_info)) if t["isdir"] else [("", obj.hash_info.value)]
+                out = os.path.join(root, "out-obj-%d" % i)
+                checkout(out, fs, obj, odb, force=True, state=st)
+                idx = DataIndex({("t",): DataIndexEntry(key=("t",), meta=Meta(isdir=t["isdir"]), hash_info=s["obj"].hash_info)})
+                idx.storage_map.add_cache(ObjectStorage((), odb))
+                out2 = os.path.join(root, "out-idx-%d" % i)
+                os.makedirs(out2)
+                errs = []
+                apply(compare(None, idx), out2, fs, update_meta=False, onerror=lambda *a: errs.append(str(a[1])), state=st)
+                return {"failed": len(r.failed), "loaded": loaded, "out": _snapshot(out), "out_idx": _snapshot(os.path.join(out2, "t")), "errors": errs,
+                        "source_now": _snapshot(t["path"])}
+
+            res[i] = safe_call(one)
+        return order, victims, restaged, todo, res
+
+    try:
+        kind, val = safe_call(body)
+    finally:
+        if st:
+            st.close()
+    case = {"scenario": "interleaved-stagings", "local": local, "link": link, "state": use_state,
+            "targets": [{"dir": t["isdir"], "staged": _short(t.get("first", {})), "edits": t["how"]} for t in targets]}
+    if kind != "ok":
+        ctx.case(case)
+        ctx.oracle(False, case, {"why": "staging several paths for one store raised", "impl": val})
+        return
+    order, victims, restaged, todo, res = val
+    case.update({"stage_order": order, "disturbed": sorted(victims), "restaged": sorted(restaged), "transfer_order": todo})
+    # non-trivial: a content of a path that is moved also occurs in a path that was disturbed
+    disturbed_contents = set()
+    for i in victims:
+        disturbed_contents.update(md5hex(b) for b in targets[i]["first"].values())
+    cross = any(md5hex(b) in disturbed_contents for i in todo if i not in victims for b in targets[i]["staged"]["want"].values())
+    ctx.case(case, nontrivial=cross)
+    ctx.count("interleaved_stagings")
+    ctx.count("interleaved: targets=%d content_shared_with_disturbed=%s restaged=%s" % (ntargets, cross, bool(restaged)))
+    for i in todo:
+        t = targets[i]
+        s = t["staged"]
+        want = s["want"]
+        k, r = res[i]
+        who = {"target": i, "staged_position": order.index(i), "restaged": i in restaged}
+        if k != "ok":
+            ctx.oracle(False, case, {"why": "round trip of a staged path raised although that path was not touched after it was staged", **who, "impl": r})
+            continue
+        if r["source_now"] != want:  # harness self-check: the premise of the oracle
+            ctx.oracle(False, case, {"why": "HARNESS: the source of an undisturbed staging changed", **who})
+            continue
+        exp_entries = sorted((rel, md5hex(b)) for rel, b in want.items()) if t["isdir"] else [("", md5hex(want[""]))]
+        ctx.oracle(r["failed"] == 0 and r["out"] == want, case,
+                   {"why": "object-level round trip of a path staged alongside others for the same store does not reproduce the data (the path itself was not touched after staging)",
+                    **who, "failed": r["failed"], "missing": sorted(set(want) - set(r["out"])), "extra": sorted(set(r["out"]) - set(want)),
+                    "different": sorted(x for x in want if x in r["out"] and r["out"][x] != want[x])})
+        ctx.oracle(r["out_idx"] == want and not r["errors"], case,
+                   {"why": "index-level round trip of a path staged alongside others for the same store does not reproduce the data", **who, "errors": r["errors"][:3],
+                    "missing": sorted(set(want) - set(r["out_idx"])), "extra": sorted(set(r["out_idx"]) - set(want)),
+                    "different": sorted(x for x in want if x in r["out_idx"] and r["out_idx"][x] != want[x])})
+        ctx.oracle(s["built"] == exp_entries and r["loaded"] == exp_entries, case,
+                   {"why": "built or reloaded listing differs from the data (interleaved stagings)", **who, "built": s["built"][:4], "loaded": r["loaded"][:4]})
+        ctx.oracle(s["nfiles"] == len(want) if t["isdir"] else s["nfiles"] in (None, 1), case,
+                   {"why": "file count does not match the data (interleaved stagings)", **who, "nfiles": s["nfiles"]})
+        ctx.oracle(s["size"] == sum(len(b) for b in want.values()), case, {"why": "total size does not match the data (interleaved stagings)", **who, "size": s["size"]})
+
+
 def run(ctx):
     ctx.rule = (
         "directory trees of 1-9 files at depth 0-4 with odd names (non-ASCII, spaces, quotes, backslash, newline, leading dots, "
         "'x.dir'), duplicate contents, empty files, NUL bytes, CRLF text; both store classes x copy/hardlink/symlink x with/without "
         "state; each through (1) build -> transfer -> Tree.load -> object checkout, (2) index build -> md5 -> save -> compare/apply, "
-        "(3) a single file, (4) a second round after a same-size, same-timestamp replacement of one file. non-trivial = at least two files; distinct = sha256 of the case"
+        "(3) a single file, (4) a second round after a same-size, same-timestamp replacement of one file. non-trivial = at least two files; distinct = sha256 of the case. "
+        "Plus interleaved stagings (histogram key interleaved_stagings): 2-4 paths (directories, now and then a single file) that share file "
+        "contents are all staged for ONE store before anything is transferred; 1..n-1 of them are then edited in place (same size / grown), "
+        "lose files, gain a file or are removed, and optionally staged again; every staging whose source was not touched since it was staged "
+        "is transferred in a random order and must round trip exactly (object checkout and index compare/apply, listing, count, size); "
+        "non-trivial there = a moved path shares a content with a disturbed one"
     )
     ctx.assumptions = ["paths are absolute and normalised (the slicing in _build_tree relies on it)", "empty directories are not tracked"]
     for _ in range(ctx.n(110, 1200)):
         run_case(ctx, ctx.rng)
+    for _ in range(ctx.n(40, 400)):
+        run_interleaved(ctx, ctx.rng)
 
 
 def search(ctx):
     for _ in range(1000):
         run_case(ctx, ctx.rng)
+    for _ in range(400):
+        run_interleaved(ctx, ctx.rng)
 
 
 def replay(ctx, payload):
